@@ -98,3 +98,13 @@ Theorem C08_worker_arms_the_drawn_delay :
     length (queue (wk w')) = S (length (queue (wk w))).
 Proof. exact FactoryBlocks.worker_arms_the_drawn_delay. Qed.
 Print Assumptions C08_worker_arms_the_drawn_delay.
+
+(* tie B: "the delay being drawn exactly once per item": Node.get_delay (and Edge.get_delay, for the buffer delay), re-read from the
+   source on every run, advance a generator by one next() and a callable by one call per invocation (theories/Nodes/TieNodes.v);
+   the model draws one value per invocation (C08_one_draw) *)
+From FV Require TieNodes.
+Theorem C08_get_delay_draws_once :
+  forall k, SrcFragments.Node_get_delay_draws k = (match k with SrcFragments.DConst => 0 | _ => 1 end)%nat /\
+            SrcFragments.Edge_get_delay_draws k = (match k with SrcFragments.DConst => 0 | _ => 1 end)%nat.
+Proof. intros k. split; [apply TieNodes.node_get_delay_draws_src|apply TieNodes.edge_get_delay_draws_src]. Qed.
+Print Assumptions C08_get_delay_draws_once.
